@@ -40,7 +40,7 @@ META: Dict[str, Any] = {
                     "expected values of float parameters are numeric strings"],
 }
 
-LAYOUTS = ["flat", "struct", "field", "ascii", "bytes", "float", "deep"]
+LAYOUTS = ["flat", "struct", "field", "ascii", "bytes", "float", "deep", "twopos"]
 TARGETS = {
     "flat": [("id", False), ("sup", False)],
     "struct": [("info.type", True), ("info.rev", True)],
@@ -49,6 +49,9 @@ TARGETS = {
     "bytes": [("raw", False)],
     "float": [("temp", False)],
     "deep": [("outer.inner.code", True), ("outer.list.v", True)],
+    # two positive responses: a short one (only `id`) listed first and a long one (`id`, `sup`); the same bytes are
+    # decodable by both, only the second one carries `sup`
+    "twopos": [("id", False), ("sup", False)],
 }
 U8 = [0, 1, 2, 3]  # includes the falsy value 0
 ASCII = ["AAA", "BBB", "CCC"]
@@ -73,7 +76,7 @@ def value_type(layout: str, target: str) -> str:
 
 def encode_pos(did: int, layout: str, vals: Dict[str, Any]) -> bytes:
     head = bytes([0x62, did >> 8, did & 0xFF])
-    if layout == "flat":
+    if layout in ("flat", "twopos"):
         return head + bytes([vals["id"], vals["sup"]])
     if layout == "struct":
         return head + bytes([vals["info.type"], vals["info.rev"]])
@@ -103,6 +106,9 @@ def truth_of(entry: Dict[str, Any], layout: str, target: str, lenient_foreign: b
         v = dict(v)
         v[key] = v[key][:len(v[key]) - entry["cut"]]
         return v[target]
+    if entry["kind"] == "trunc" and layout == "twopos":
+        # the short positive response still decodes a response cut by one byte
+        return v["id"] if (target == "id" and entry["cut"] == 1) else None
     if entry["kind"] != "pos" and not (lenient_foreign and entry["kind"] == "foreign"):
         return None
     if layout == "float":
@@ -167,7 +173,7 @@ def model_answer(cfg: Dict[str, Any], lenient_foreign: bool = False) -> Tuple[Op
 
 # ------------------------------------------------------------------ generation
 def gen_values(r, layout: str) -> Dict[str, Any]:
-    if layout == "flat":
+    if layout in ("flat", "twopos"):
         return {"id": r.choice(U8), "sup": r.choice(U8)}
     if layout == "struct":
         return {"info.type": r.choice(U8), "info.rev": r.choice(U8)}
@@ -246,7 +252,8 @@ def gen(rs: int, index: int, tier: str) -> Dict[str, Any]:
                        "cut": re_.randint(1, 2)}
     ra = S.rng("abandon")
     abandon = [ra.choice([0, 0, 1, 2, 3]), ra.random() < 0.5] if ra.random() < 0.35 else None
-    return {"kind": kind, "variants": variants, "did_layout": did_layout, "ecu": ecu, "abandon": abandon}
+    return {"kind": kind, "variants": variants, "did_layout": did_layout, "ecu": ecu, "abandon": abandon,
+            "reuse_buffer": S.rng("transport").random() < 0.3}
 
 
 # ------------------------------------------------------------------ building real candidates
@@ -291,12 +298,19 @@ def build_candidates(cfg: Dict[str, Any]) -> List[Any]:
                 body = [b.value("temp", flt)]
             elif layout == "deep":
                 body = [b.value("outer", outer_t)]
+            elif layout == "twopos":
+                body = []
             else:
                 raise ValueError(layout)
-            rs = b.response(f"rs_{nm}", head + body)
+            pos = []
+            if layout == "twopos":
+                pos.append(b.response(f"rs_short_{nm}", [b.coded_const("sid", 0x62), b.coded_const("did", did, bits=16),
+                                                         b.value("id", u8)]))
+                body = [b.value("id", u8), b.value("sup", u8)]
+            pos.append(b.response(f"rs_{nm}", head + body))
             ng = b.response(f"ng_{nm}", [b.coded_const("sid", 0x7F), b.coded_const("rq_sid", 0x22),
                                           b.nrc_const("nrc", [0x11, 0x12, 0x31])], "NEGATIVE")
-            b.service(nm, rq, [rs], [ng])
+            b.service(nm, rq, pos, [ng])
         if cfg["kind"] == "ecu":
             pats = [EcuVariantPattern(matching_parameters=[
                 MatchingParameter(expected_value=mp["exp"], diag_comm_snref=mp["svc"],
@@ -329,6 +343,16 @@ def drive(cands: List[Any], cfg: Dict[str, Any], use_cache: bool, log: EventLog,
         did = int(d)
         table[bytes([0x22, did >> 8, did & 0xFF])] = ecu_bytes(did, cfg["did_layout"][d], entry)
     res: Dict[str, Any] = {"requests": [], "exc": None, "unknown_request": None, "abandoned": False}
+    rxbuf = bytearray()
+
+    def deliver(resp: bytes):
+        """What the transport hands to evaluate(): a fresh bytes object, or (receive-buffer reuse) one
+        mutable buffer that is refilled in place for every response."""
+        if not cfg.get("reuse_buffer"):
+            return resp
+        rxbuf[:] = resp
+        return rxbuf
+
     try:
         m = VariantMatcher(cands, use_cache=use_cache)
         if abandon_after is not None:
@@ -336,7 +360,7 @@ def drive(cands: List[Any], cfg: Dict[str, Any], use_cache: bool, log: EventLog,
             for i, (phys, req) in enumerate(gen0):
                 reqb = bytes(req)
                 log.ev("tester", "request-before-timeout", {"cache": use_cache, "req": reqb})
-                m.evaluate(table.get(reqb) or bytes([0x7F, reqb[0] if reqb else 0, 0x11]))
+                m.evaluate(deliver(table.get(reqb) or bytes([0x7F, reqb[0] if reqb else 0, 0x11])))
                 if i >= abandon_after:
                     res["abandoned"] = True
                     break
@@ -356,7 +380,7 @@ def drive(cands: List[Any], cfg: Dict[str, Any], use_cache: bool, log: EventLog,
                 res["unknown_request"] = reqb
                 resp = bytes([0x7F, reqb[0] if reqb else 0, 0x11])
             log.ev("ecu", "response", {"resp": resp})
-            m.evaluate(resp)
+            m.evaluate(deliver(resp))
         res["has_match"] = m.has_match()
         mv = m.matching_variant
         res["match"] = None if mv is None else next((i for i, c in enumerate(cands) if c is mv), -2)
